@@ -131,6 +131,15 @@ def regenerate():
                          f"(* translator failed: {status['T-construct']} *)\n"
                          "Definition translator_failed : False := I.\n")
     try:
+        from translator import compilegen as T12c
+        write_if_changed(os.path.join(GEN, "CompileGen.v"), T12c.translate(REPO))
+        status["T-compile"] = None
+    except Exception as e:
+        status["T-compile"] = f"{type(e).__name__}: {e}"
+        write_if_changed(os.path.join(GEN, "CompileGen.v"),
+                         f"(* translator failed: {status['T-compile']} *)\n"
+                         "Definition translator_failed : False := I.\n")
+    try:
         from translator import tables as T34
         text = T34.translate(REPO)
         write_if_changed(os.path.join(GEN, "Tables.v"), text)
